@@ -1380,6 +1380,10 @@ class LangServer:
                 if ast_old is not None:
                     for key in ast_old.global_dict:
                         self.obj_tree.pop(key, None)
+                # Links of the remaining files into the removed file are stale
+                self.link_version = (self.link_version + 1) % 1000
+                for _, file_obj in self.workspace.items():
+                    file_obj.ast.resolve_links(self.obj_tree, self.link_version)
             return
         did_change, err_str = self.update_workspace_file(
             filepath, read_file=True, allow_empty=did_open
